@@ -2,7 +2,7 @@
    Statements only (copied from the lemma libraries); every proof is a bare
    `exact`; see the cited files in coq/proofs for the proofs. *)
 From Coq Require Import List NArith ZArith Bool Arith Sorting.Sorted Sorting.Permutation.
-From D2P Require Import Str Err Xml TableTypes Tables Fmt Bullets Merge Collector Walk ShapeFacts TokFacts FrameFacts MergeFacts Predicates SeqFacts LineageFacts BulletsFacts GridFacts LineageFacts GridWalk BlocksSpec MarkerFacts ReplaceFacts StandIns.
+From D2P Require Import Str Err Xml TableTypes Tables Fmt Bullets Merge Collector Walk ShapeFacts TokFacts FrameFacts MergeFacts Predicates SeqFacts LineageFacts BulletsFacts GridFacts LineageFacts GridWalk BlocksSpec MarkerFacts ReplaceFacts StandIns PyVal Source SourceBase SourceMerge.
 Import ListNotations.
 
 (* refinement to the declarative spec: walking a paragraph whose content is inline (any nesting of runs, wrappers, unknown elements, hyperlinks, pictures, forms, equations; no nested paragraph, table cell, note or comment marker) appends exactly ONE record after all earlier ones, pointing at that element, with its style, whose tokens are: queued note label, list marker, then the contributions of its children in document order - nothing else, nothing twice, nothing from elsewhere; the open-paragraph stack and comment ranges are untouched *)
@@ -285,3 +285,23 @@ Theorem C02_drop_down_value :
   forall e ks, get_ddList_entry e ks = ddlist_spec e ks.
 Proof. exact ddlist_value. Qed.
 Print Assumptions C02_drop_down_value.
+
+(* SOURCE TIE: the _CONTENT_TAGS set as read by the source translator is the model's list *)
+Theorem C02_source_content_tags :
+  S__CONTENT_TAGS = map VStr content_tags.
+Proof. exact src_content_tags. Qed.
+Print Assumptions C02_source_content_tags.
+
+(* SOURCE TIE: attribute_register._is_content as translated from the source text is the model's is_content *)
+Theorem C02_source_is_content :
+  forall t, S__is_content (enc_el t) = Ok (VBool (is_content t)).
+Proof. exact src_is_content. Qed.
+Print Assumptions C02_source_is_content.
+
+(* SOURCE TIE: attribute_register.has_content as translated from the source text (recursive generator, first content tag in document order or None) is truthy exactly when the model's has_content is, for every tree (given fuel above its height) *)
+Theorem C02_source_has_content :
+  forall t fuel,
+  (el_height t < fuel)%nat -> named t ->
+  exists v, S_has_content fuel (enc_el t) = Ok v /\ py_truth v = has_content t.
+Proof. exact src_has_content. Qed.
+Print Assumptions C02_source_has_content.
